@@ -525,6 +525,7 @@ def run_project(sgcli, model, builtin, gen, P, det_full, verbose_log=None):
             acc.nontrivial.add(json.dumps(case, sort_keys=True))
         for st in {st for _, st in J["entries"]}:
             acc.hist["cli:has-" + st] += 1
+        acc.hist["cli:files-with-ignored-lines"] += sum(1 for r in J["rows"] if r["stats"]["total"] > r["stats"]["code"] + r["stats"]["comment"] + r["stats"]["blank"])
         if any(r.get("violation_category", {}).get("category") == "structure" for r in J["rows"]):
             acc.hist["cli:has-structure-result"] += 1
         # the two shapes on which generate_split_suggestions cannot read what a Failed/Warning result names
@@ -623,6 +624,12 @@ def run_project(sgcli, model, builtin, gen, P, det_full, verbose_log=None):
                 (["stats", "breakdown"], ["--format", "json", "--no-sloc-cache"]),
                 (["stats", "breakdown"], ["--by", "dir", "--format", "json", "--no-sloc-cache"]),
                 (["stats", "report"], ["--format", "html", "--no-sloc-cache"])]
+        if "bigstructure" in P.tags:
+            # more than 20 structure results with tied paths: every listing format must keep their order
+            cmds = [(["check"], ["--format", f] + tail) for f in ("json", "sarif", "text", "markdown", "html")]
+            acc.hist["cli:big-structure-results"] += sum(1 for r in J["rows"] if r.get("violation_category", {}).get("category") == "structure")
+            paths = collections.Counter(r["path"] for r in J["rows"] if r.get("violation_category", {}).get("category") == "structure")
+            acc.hist["cli:big-structure-paths-with-several-results"] += sum(1 for v in paths.values() if v > 1)
         reps = 5 if det_full else 1
         for sub, post in cmds:
             seen = {}
@@ -776,7 +783,7 @@ def stats_phase(acc, sgcli, model, builtin, gen, P, J, rep_j, run, case, rawmap)
             acc.fails.append(("--report-json not well-formed: %s" % e, case))
 
 
-KIND_PLAN = ["none", "plain", "ties", "hostile", "structure", "baseline", "customlang", "mixed"]
+KIND_PLAN = ["bigstructure", "none", "plain", "ties", "hostile", "structure", "baseline", "customlang", "mixed"]
 
 
 def cli_phase(ctx, sgcli, model, builtin, gen, n_projects, n_full):
@@ -786,8 +793,8 @@ def cli_phase(ctx, sgcli, model, builtin, gen, n_projects, n_full):
     while len(projects) < n_projects:
         projects.append(gen_project(ctx.rng, KIND_PLAN[k % len(KIND_PLAN)]))
         k += 1
-    full = set(i for i, P in enumerate(projects) if ({"ties", "customlang"} & P.tags))
-    full = set(sorted(full)[:n_full])
+    full = [i for i, P in enumerate(projects) if ({"ties", "customlang", "bigstructure"} & P.tags)]
+    full = set(sorted(full, key=lambda i: (0 if "bigstructure" in projects[i].tags else 1, i))[:n_full])
     with cf.ThreadPoolExecutor(max_workers=6) as ex:
         futs = [ex.submit(run_project, sgcli, model, builtin, gen, P, i in full) for i, P in enumerate(projects)]
         for f in futs:
